@@ -69,6 +69,9 @@ func (c wcase) apply(rec *tx.Rec) (res []wresult, callsAfter []int, failedAtOp i
 			r = wresult{0, w.Flush()}
 		case "fragment":
 			r = wresult{0, w.FlushFragment()}
+		case "resetop":
+			// the quick opcode reset keeps the destination: a recorded destination failure must survive it
+			w.ResetOp(ws.OpText)
 		}
 		res = append(res, r)
 		callsAfter = append(callsAfter, len(rec.Calls))
@@ -83,7 +86,7 @@ func drawOps(t *rapid.T, bufsize int) []wop {
 	n := rapid.IntRange(2, 14).Draw(t, "nops")
 	ops := make([]wop, n)
 	for i := range ops {
-		kind := rapid.SampledFrom([]string{"write", "write", "write", "through", "readfrom", "flush", "flush", "fragment"}).Draw(t, "op")
+		kind := rapid.SampledFrom([]string{"write", "write", "write", "through", "readfrom", "flush", "flush", "fragment", "resetop"}).Draw(t, "op")
 		size := 0
 		switch kind {
 		case "write", "through", "readfrom":
@@ -144,8 +147,8 @@ func TestWriterFaults(t *testing.T) {
 				// every later write and flush reports an error
 				for i := failedAtOp + 1; i < len(cc.Ops); i++ {
 					switch cc.Ops[i].Kind {
-					case "readfrom":
-						continue // only "no further byte" is asserted for ReadFrom
+					case "readfrom", "resetop":
+						continue // only "no further byte" is asserted for ReadFrom; ResetOp returns nothing
 					}
 					if res[i].err == nil {
 						t.Fatalf("op %d (%v) after the failed destination write %d (during op %d) reported success\ncase: %s", i, cc.Ops[i], k, failedAtOp, hx.JSON(cc.describe()))
